@@ -1,6 +1,6 @@
 (* C14 witnesses: `_refuted` statements by vm_compute, and non-vacuity of the theorems' hypotheses. *)
 From Coq Require Import List Bool Arith ZArith Lia Permutation.
-From PAFC14 Require Import Model Lib Proofs1 Proofs2 Proofs3 Proofs4 Proofs6.
+From PAFC14 Require Import Model Lib Proofs1 Proofs2 Proofs3 Proofs4 Proofs6 Proofs7.
 Import ListNotations.
 
 Definition o2 : list (outcome nat nat) := [Ok 10; Ok 20].
@@ -115,4 +115,29 @@ Proof. vm_compute. reflexivity. Qed.
 
 Example nonvacuous_jobs_every_job_taken :
   jq (jrun true [T 0; V; T 0; T 1; JP] (@jstart nat nat 2 (enum [Ok 1; Exc 2]))) = [].
+Proof. vm_compute. reflexivity. Qed.
+
+(* ---------------- hardening sweep (Proofs7) ---------------- *)
+(* non-vacuity of C14_jobs_keyed_any_numbering: jobs queued as numbers 2, 0, 1; two workers; a finished call *)
+Example nonvacuous_any_numbering :
+  let jobs : list (nat * outcome nat nat) := [(2, Ok 30); (0, Ok 10); (1, Ok 20)] in
+  let s := jrun true ([V; T 1; T 0; T 1] ++ repeat JP 20) (jstart 2 jobs) in
+  jdone s = true /\ Permutation jobs (enum [Ok 10; Ok 20; Ok 30]) /\
+  sorted_results (good (jtaken s)) = enum [Ok 10; Ok 20; Ok 30] /\ map fst (jtaken s) <> [0; 1; 2].
+Proof.
+  split; [vm_compute; reflexivity|]. split.
+  - cbn. apply (Permutation_cons_app [(0, Ok 10); (1, Ok 20)] [] (2, Ok 30)). cbn.
+    apply Permutation_refl.
+  - split; [vm_compute; reflexivity|]. vm_compute. discriminate.
+Qed.
+
+(* non-vacuity of C14_numbering_history_free, and what the counter does for unnumbered jobs in between *)
+Example nonvacuous_numbering : explicit [Some 0; Some 2; Some 1] /\
+  assign false 57 [Some 0; None; Some 2; None; Some 1] = ([0; 57; 2; 58; 1], 59).
+Proof. split; [intros sp [H|[H|[H|[]]]]; subst; discriminate | reflexivity]. Qed.
+
+(* non-vacuity of C14_sneakier_fresh_uses_partial: two uses, the second after the first has deleted the cache *)
+Example nonvacuous_sneakier_fresh_uses :
+  sneakier false (concat (map fresh_use [(0, 3%Z, [[1; 2]; [5]]%Z); (1, 100%Z, [[1]]%Z)])) [] None None
+  = [Some [4; 7]; Some [16]; Some [101]]%Z.
 Proof. vm_compute. reflexivity. Qed.
